@@ -234,9 +234,13 @@ package ch
 
 //@ -- decodeBlock: the block handler runs only for a successfully decoded block that is not the
 //@ -- empty end marker (and at most once: there is a single call, outside any loop)
-//@ contract (c *Client) decodeBlock(ctx, opt) (err) props(C03)
+//@ contract (c *Client) decodeBlock(ctx, opt) (err) props(C03,C05)
 //@   requires c != nil && ctx != nil && c.reader != nil && opt.Handler != nil
 //@   modifies all(c.reader), all(ctx), all(opt.Result)
+//@ -- a corrupted compressed frame is re-exported as *CorruptedDataErr however deeply the decoder
+//@ -- wrapped it (errors.As walks the whole chain), C05
+//@ callsite errors.As
+//@   assert true [C03,C05] {corruption-error-is-looked-up-through-the-whole-error-chain}
 //@ callsite value:Handler
 //@   assert !(block.Columns == 0 && block.Rows == 0) [C03] {handler-only-for-a-non-empty-block}
 //@   assert 0 <= block.Rows && block.Rows <= 100000000 [C03,C06] {handler-sees-a-validated-row-count}
